@@ -60,9 +60,12 @@ def base_frames(ctx, b, d, rnd, prop):
     if sum(1 for o in vecs if o["legacy"]) < 2:          # always at least two legacy vectors
         for o in vecs[:2]:
             o["legacy"] = True
+    # ... and one whose declared content size is the true one, without any checksum (nothing but the end mark says "complete")
+    vecs.append({"code": 4, "bcs": False, "ccs": False, "level": 0, "conc": 1, "legacy": False, "handler": False, "size": "actual"})
     for o in vecs:
         o = dict(o)
-        if o.get("size") == -1:
+        actual = o.get("size") == "actual"
+        if o.get("size") == -1 or actual:
             o.pop("size")
         for kind in ("small1", "small3", "multi"):
             if kind == "small1":
@@ -80,7 +83,8 @@ def base_frames(ctx, b, d, rnd, prop):
                 inp["p1"] = B
                 calls = [{"op": "write", "n": n}, {"op": "close"}]
             cid = len(cases) + 1
-            cases.append({"id": cid, "input": inp, "opts": o, "calls": calls, "kind": kind, "save": os.path.join(d, "base-%d.lz4" % cid)})
+            cases.append({"id": cid, "input": inp, "opts": dict(o, size=inp["len"]) if actual else o, "calls": calls, "kind": kind,
+                          "save": os.path.join(d, "base-%d.lz4" % cid)})
     recs, faults = fl.shard_run(b, "frame-write", cases, d, "base")
     if faults:
         raise vlib.MachineryFault("frame-write failed: %s" % faults[0]["stderr"][-800:])
@@ -184,7 +188,7 @@ def c06_cases(ctx, bases, rnd):
         B = fl.block_of(c["opts"])
         for cut in cuts:
             for k in range(1 if (n <= 360 and q) else 2):
-                cfg = reader_cfg(rnd, B) if n > 360 else {"conc": [1, 2, 4][(cut + k) % 3], "mode": ["read", "writeto"][(cut // 3 + k) % 2], "bufs": [[1, 7, 4096, 70000][cut % 4]]}
+                cfg = reader_cfg(rnd, B) if n > 360 else {"conc": [1, 2, 4][(cut + k) % 3], "mode": ["read", "writeto"][(cut // 3 + k) % 2], "bufs": [[1, 7, 4096, 70000][cut % 4]], "seek": (cut // 2 + k) % 2 == 0}
                 cases.append({"id": len(cases) + 1, "chunks": [{"file": c["save"]}], "ops": [[1, cut]], "cfg": cfg, "content": c["input"],
                               "tag": {"base": bi, "cut": cut, "legacyboundary": bool(legacy and cut in blockends),
                                       "field": next((k_ for k_, a, z in lay if a <= cut < z), "end")}})
